@@ -182,7 +182,7 @@ def peer_clause(cl, rng, n, replay):
                     f.write(write_peer(lens[k], dt, code, samples[k], eol, header_npts=(lens[k] + 1 if bad and k == 1 else None)))
                 files.append(fn)
             order = PERMS[(j // len(layouts)) % 6]
-            explicit = [None, 25.0][(j // 3) % 2]
+            explicit = [None, 25.0, 0.0, 0][(j // 3) % 4]        # an explicit zero is an orientation like any other
             try:
                 r = hvsrpy.read_single([files[o] for o in order], degrees_from_north=explicit)
                 err = None
@@ -249,7 +249,7 @@ def obspy_clause(cl, rng, n, replay):
             order = PERMS[j % 6]
             traces = [obspy.Trace(data=data[chans[o]].copy(), header=dict(channel=chans[o], station="ST", network="NW", sampling_rate=fs)) for o in order]
             fmt = ["mseed1", "mseed3", "sac_little", "sac_big"][(j // 2) % 4]
-            explicit = [None, 40.0][j % 2]
+            explicit = [None, 40.0, 0.0][j % 3]
             try:
                 if fmt == "mseed1":
                     fn = os.path.join(d, f"m{j}.mseed")
